@@ -40,6 +40,8 @@ pub struct BatchResult {
     pub violations: Vec<(u64, u64, Violation)>,
     pub harness_errors: Vec<(u64, Violation)>,
     pub samples: Vec<serde_json::Value>,
+    /// slowest run (seed, milliseconds) — diagnostics only, never part of a verdict
+    pub slowest: (u64, u64),
 }
 
 pub fn run_seed_of(base_seed: u64, world: &str, target: &str, i: u64) -> u64 {
@@ -84,7 +86,12 @@ pub fn run_batch(spec: &BatchSpec) -> BatchResult {
                             inf.publish(w, spec.world.name(), seed);
                         }
                         let plan = spec.world.generate(seed, spec.target, spec.thorough);
+                        let t_run = Instant::now();
                         let out = execute_plan(spec.world, &plan, false);
+                        let ms = t_run.elapsed().as_millis() as u64;
+                        if ms > local.slowest.1 {
+                            local.slowest = (seed, ms);
+                        }
                         if let Some(inf) = spec.inflight {
                             inf.clear(w);
                         }
@@ -150,6 +157,9 @@ pub fn run_batch(spec: &BatchSpec) -> BatchResult {
                     a.distinct_nontrivial.extend(local.distinct_nontrivial);
                     a.states.extend(local.states);
                     a.arena_bytes_max = a.arena_bytes_max.max(local.arena_bytes_max);
+                    if local.slowest.1 > a.slowest.1 {
+                        a.slowest = local.slowest;
+                    }
                     a.violations.extend(local.violations);
                     a.harness_errors.extend(local.harness_errors);
                     if a.samples.len() < 3 {
